@@ -95,8 +95,9 @@ def gen_case(r, maxn):
 def spell(r, Q):
     from scipy import sparse
     from scipy.sparse.linalg import aslinearoperator
-    k = r.choice(['dense', 'sparse', 'op'])
-    return {'dense': Q, 'sparse': sparse.csr_matrix(Q), 'op': aslinearoperator(sparse.csr_matrix(Q))}[k], k
+    k = r.choice(['dense', 'sparse', 'op', 'csc', 'coo', 'dia'])
+    return {'dense': lambda: Q, 'sparse': lambda: sparse.csr_matrix(Q), 'op': lambda: aslinearoperator(sparse.csr_matrix(Q)),
+            'csc': lambda: sparse.csc_matrix(Q), 'coo': lambda: sparse.coo_matrix(Q), 'dia': lambda: sparse.dia_matrix(Q)}[k](), k
 
 
 def impl_totals(r, ms):
@@ -132,6 +133,60 @@ def impl_totals(r, ms):
 
 
 SHARED = [0]
+
+
+def float_blue(ms):
+    """the property's specification in floating point: inverse-variance combination of the unbiased linear estimates available from
+    exactly those measurements whose queries can express the count, at least 1"""
+    ests, vars_ = [], []
+    for m in ms:
+        Q = m['Q']
+        v = np.linalg.pinv(Q.T) @ np.ones(Q.shape[1])
+        if np.allclose(Q.T @ v, 1.0, atol=1e-9):
+            ests.append(v @ m['y']); vars_.append(m['noise'] ** 2 * (v @ v))
+    if not ests:
+        return 1.0
+    var = 1 / sum(1 / x for x in vars_)
+    return max(1.0, var * sum(e / x for e, x in zip(ests, vars_)))
+
+
+def workspace_history(res, r, tier):
+    """an adaptive loop that keeps ONE query array and ONE answer array and overwrites them in place between rounds (and, separately,
+    builds a fresh array of the same shape every round while dropping the old one): the estimate of every round must come from that
+    round's contents"""
+    from mbi import Domain, FactoredInference, LocalInference, public_inference
+    import contextlib, io
+    for _ in range(2 if tier == 'quick' else 12):
+        n = r.choice([3, 4, 6])
+        dom = Domain(['a'], [n])
+        work = np.zeros((n, n)); ywork = np.zeros(n)
+        seq = []
+        for rnd in range(6):
+            N = r.randint(5, 300)
+            x = np.zeros(n)
+            for _k in range(N):
+                x[r.randrange(n)] += 1
+            Q = [np.eye(n), float(r.choice([2.0, 4.0, 0.5])) * np.eye(n), np.tril(np.ones((n, n))), np.triu(np.ones((n, n)))][r.randrange(4)]
+            inplace = rnd % 2 == 0
+            if inplace:
+                work[:] = Q; ywork[:] = Q @ x
+                meas = [(work, ywork, 1.0, ('a',))]
+            else:
+                meas = [(Q.copy(), Q @ x, 1.0, ('a',))]
+            got = {}
+            with contextlib.redirect_stdout(io.StringIO()), np.errstate(all='ignore'):
+                got['PublicInference'] = float(public_inference.estimate_total(list(meas)))
+                eng = FactoredInference(dom, iters=1); eng._setup(eng.fix_measurements(list(meas)), None); got['FactoredInference'] = float(eng.model.total)
+                loc = LocalInference(dom, iters=1); loc._setup(list(meas), None); got['LocalInference'] = float(loc.model.total)
+            seq.append((rnd, 'in place' if inplace else 'fresh array', N, got))
+            res.case({'workspace': n, 'round': rnd, 'N': N, 'q': int(Q.sum())}, True)
+            res.count('workspace rounds')
+            for k, v in got.items():
+                if not close(v, float(N), 1e-6, 1e-9):
+                    res.violation('failing-input', f'{k}: round {rnd} of a loop that re-uses its query / answer arrays ({"overwritten in place" if inplace else "fresh array of the same shape"}): '
+                                  f'total {v} for noise-free answers of {N} records (rounds so far: {seq})', {'request': {'history': 'c09.workspace_history', 'n': n, 'rounds': [(a, b, c) for a, b, c, _ in seq]}}, key='total:workspace')
+                    return
+            del meas
 
 
 def given_total_used(r):
@@ -196,6 +251,14 @@ def run(res, drv, tier, seed):
             res.violation('failing-input', bad, dict(rp, expected=bad), key='total:noise-free')
             continue
         if resp is None:
+            # no model available (a broken build / translation): the property's own specification decides alone
+            if N is None:
+                blue = float_blue(ms)
+                for eng, t in impl.items():
+                    if not close(t, blue, 1e-6, 1e-9):
+                        res.violation('failing-input', f'{eng}: total {t}, but the inverse-variance combination of the unbiased linear estimates is {blue}',
+                                      dict(rp, expected=blue), key='total:blue')
+                        break
             continue
         if not resp['ok']:
             res.violation('correspondence', 'driver error ' + resp['err'], dict(rp, stream='C09.total'))
@@ -223,6 +286,7 @@ def run(res, drv, tier, seed):
                 break
     # clause: the estimate is a function of *this call's* measurements, also on a reused / warm-started estimator
     history_totals(res, drv, r, tier)
+    workspace_history(res, rng(seed, 'C09-workspace'), tier)
     # clause: a supplied total is used exactly
     for _ in range(3 if tier == 'quick' else 12):
         T, got = given_total_used(r)
